@@ -416,20 +416,18 @@ func envSubstWithOptions() yqAction {
 		noEmpty := hasOptionParameter(value, "ne")
 		noUnset := hasOptionParameter(value, "nu")
 		failFast := hasOptionParameter(value, "ff")
-		verifYield("envsubstOpType.write")
-		envsubstOpType.Type = "ENVSUBST"
+		// the name is local to this token: envsubstOpType is shared by every expression that is parsed
+		typeName := "ENVSUBST"
 		prefs := envOpPreferences{NoUnset: noUnset, NoEmpty: noEmpty, FailFast: failFast}
 		if noEmpty {
-			verifYield("envsubstOpType.write")
-			envsubstOpType.Type = envsubstOpType.Type + "_NO_EMPTY"
+			typeName = typeName + "_NO_EMPTY"
 		}
 		if noUnset {
-			verifYield("envsubstOpType.write")
-			envsubstOpType.Type = envsubstOpType.Type + "_NO_UNSET"
+			typeName = typeName + "_NO_UNSET"
 		}
-		verifYield("envsubstOpType.read")
+		opType := &operationType{Type: typeName, NumArgs: envsubstOpType.NumArgs, Precedence: envsubstOpType.Precedence, Handler: envsubstOpType.Handler}
 
-		op := &Operation{OperationType: envsubstOpType, Value: envsubstOpType.Type, StringValue: value, Preferences: prefs}
+		op := &Operation{OperationType: opType, Value: typeName, StringValue: value, Preferences: prefs}
 		return &token{TokenType: operationToken, Operation: op}, nil
 	}
 }
